@@ -474,3 +474,5 @@ def _touch_by_index(ctx, model, R):
                None if ok else render_path(path.events))
     ctx.require("R12.touch", nreg, 1, "listener registrations")
     return found
+
+EXPLANATION += ' Batch 6: the loop that stamps `updated` visits every mailbox (R12.all); text columns keep text (R12.exact).'
